@@ -319,7 +319,8 @@ fn f_mon2_fast_fn_impl(nodes: &[Node], env: &Uiua) -> Option<(ValueMon2Fn, usize
             let f = std::boxed::Box::new(move |val: Value, depth: usize, env: &mut Uiua| {
                 let before = before(val.clone(), d1 + depth, env)?;
                 let replaced = val.replace_depth(repl.clone(), depth);
-                Ok((before, replaced))
+                // The constant is pushed last, so it is the top output
+                Ok((replaced, before))
             });
             (f, 0)
         }
@@ -329,7 +330,8 @@ fn f_mon2_fast_fn_impl(nodes: &[Node], env: &Uiua) -> Option<(ValueMon2Fn, usize
             let f = std::boxed::Box::new(move |val: Value, depth: usize, env: &mut Uiua| {
                 let replaced = replace_rand(&val, depth);
                 let before = before(val, d1 + depth, env)?;
-                Ok((before, replaced))
+                // The random number is pushed last, so it is the top output
+                Ok((replaced, before))
             });
             (f, 0)
         }
